@@ -21,8 +21,8 @@ IF = "holopy/scattering/imageformation.py"
 MD = "holopy/core/metadata.py"
 # ---- C01
 m("c01-drop-scaling", "C01 C12", I, "scattered_field * scaling, reference_field)", "scattered_field, reference_field)")
-m("c01-ref-all-components", "C01", I, "holo = (np.abs(total_field.sel(vector=['x', 'y']))**2).sum(dim=vector)", "holo = (np.abs(total_field)**2).sum(dim=vector)")
-m("c01-intensity-z", "C01", I, "intensity = (np.abs(field.sel(vector=['x', 'y']))**2).sum(dim=vector)", "intensity = (np.abs(field)**2).sum(dim=vector)")
+m("c01-ref-all-components", "C01", I, "holo = (np.abs(total_field.sel(vector=['x', 'y']))**2).sum(", "holo = (np.abs(total_field)**2).sum(")
+m("c01-intensity-z", "C01", I, "intensity = (np.abs(field.sel(vector=['x', 'y']))**2).sum(", "intensity = (np.abs(field)**2).sum(")
 m("c01-history-cache", "C01", "holopy/scattering/theory/mie.py",
   "        if (ensure_array(s.r) == 0).any():\n            raise InvalidScatterer(s, \"Radius is zero\")",
   "        if (ensure_array(s.r) == 0).any():\n            raise InvalidScatterer(s, \"Radius is zero\")\n        key = (float(np.max(ensure_array(s.r))), float(medium_wavevec))\n        if getattr(Mie, '_cache', (None, None))[0] == key:\n            return Mie._cache[1]\n        Mie._cache = (key, None)")
@@ -36,10 +36,10 @@ m("c04-wavevec-no-index", "C04 C02", IF, "return 2 * np.pi / (schema.illum_wavel
 # ---- C05
 m("c05-mielens-sign", "C05 C06 C08", "holopy/scattering/theory/mielens.py", "phi -= pol_angle", "phi += pol_angle")
 m("c05-no-z-inversion", "C05 C02", IF, "wavevec * (origin[2] - f.z.values),", "wavevec * (f.z.values - origin[2]),")
-m("c19-atan2-swapped", "C19 C05", "holopy/core/math.py", "    phi = np.arctan2(y, x) % (2*np.pi)\n    z = (np.full(rho.size, z)", "    phi = np.arctan2(x, y) % (2*np.pi)\n    z = (np.full(rho.size, z)")
+m("c19-atan2-swapped", "C19 C05", "holopy/core/math.py", "    phi = np.arctan2(y, x) % (2*np.pi)\n    z = (np.full(np.shape(rho), z)", "    phi = np.arctan2(x, y) % (2*np.pi)\n    z = (np.full(np.shape(rho), z)")
 # ---- C06
 m("c06-superposition-assign", "C06", IF, "            field += self._calculate_single_color_scattered_field(s, schema)", "            field = self._calculate_single_color_scattered_field(s, schema)")
-m("c06-to-vector-no-normalise", "C06 C16 C01", MD, "    c = c/np.sqrt(np.sum(c**2))\n", "")
+m("c06-to-vector-no-normalise", "C06 C16 C01", MD, "    c = c/np.hypot.reduce(c)\n", "")
 m("c06-channel-by-position", "C06", IF, "                    schema.illum_wavelen.sel(illumination=illum).values)[0],", "                    schema.illum_wavelen.values)[0],")
 # ---- C07
 m("c07-replace-true", "C07", MD, "selection = np.random.choice(tot_pix, pixels, replace=False)", "selection = np.random.choice(tot_pix, pixels, replace=True)")
@@ -63,14 +63,14 @@ m("c11-name-dedup", "C11", "holopy/core/mapping.py", "        while name in self
 m("c11-shallow-parameters", "C11", "holopy/scattering/scatterer/scatterer.py", "        return deepcopy(self._parameters)", "        return copy(self._parameters)")
 # ---- C12
 m("c12-half-N", "C12", "holopy/inference/model.py", "            -N/2 * np.log(2 * np.pi) -", "            -N * np.log(2 * np.pi) -")
-m("c12-noise-precedence", "C12", "holopy/inference/model.py", "        if 'noise_sd' in optics_map and optics_map['noise_sd'] is not None:\n            val = optics_map['noise_sd']\n        elif hasattr(schema, 'noise_sd'):\n            val = schema.noise_sd",
-  "        if hasattr(schema, 'noise_sd') and schema.noise_sd is not None:\n            val = schema.noise_sd\n        elif 'noise_sd' in optics_map and optics_map['noise_sd'] is not None:\n            val = optics_map['noise_sd']\n        elif hasattr(schema, 'noise_sd'):\n            val = schema.noise_sd")
+m("c12-noise-precedence", "C12", "holopy/inference/model.py", "        if 'noise_sd' in optics_map and optics_map['noise_sd'] is not None:\n            val = optics_map['noise_sd']\n",
+  "        if hasattr(schema, 'noise_sd') and schema.noise_sd is not None:\n            val = schema.noise_sd\n        elif 'noise_sd' in optics_map and optics_map['noise_sd'] is not None:\n            val = optics_map['noise_sd']\n")
 m("c12-no-shortcircuit", "C12", "holopy/inference/model.py", "        if lnprior == -np.inf:\n            return lnprior\n        else:", "        if False:\n            return lnprior\n        else:")
 # ---- C13
-m("c13-limits-unscaled", "C13", "holopy/inference/nmpfit.py", "                d['limits'][0] = par.scale(par.lower_bound)", "                d['limits'][0] = par.lower_bound")
+m("c13-limits-unscaled", "C13", "holopy/inference/nmpfit.py", "                d['limits'][0] = scaled_bound(par, par.lower_bound, 1)", "                d['limits'][0] = par.lower_bound")
 m("c13-no-cleanup", "C13", "holopy/inference/nmpfit.py", "        self.cleanup_from_fit()\n", "")
 # ---- C14
-m("c14-exclusive-bounds", "C14 C12", "holopy/core/prior.py", "    def lnprob(self, p):\n        if p < self.lower_bound or p > self.upper_bound:\n            return -np.inf\n        # For a uniform", "    def lnprob(self, p):\n        if p <= self.lower_bound or p >= self.upper_bound:\n            return -np.inf\n        # For a uniform")
+m("c14-exclusive-bounds", "C14 C12", "holopy/core/prior.py", "        if not self.lower_bound <= p <= self.upper_bound:\n            return -np.inf\n        # For a uniform", "        if not self.lower_bound < p < self.upper_bound:\n            return -np.inf\n        # For a uniform")
 m("c14-sub-as-add", "C14", "holopy/core/prior.py", "        return self + (-value)", "        return self + value")
 m("c14-rtruediv", "C14", "holopy/core/prior.py", "        return value * TransformedPrior(_reciprocal, self)", "        return value * self")
 # ---- C15
@@ -82,14 +82,14 @@ m("c16-welford", "C16 C18", "holopy/core/io/io.py", "            return np.sqrt(
 m("c16-pack-attrs-coords", "C16", "holopy/core/io/io.py", "                new_attrs[attr_coords][attr][str(dim)]=val[dim].values", "                new_attrs[attr_coords][attr][str(dim)]=np.sort(val[dim].values)")
 # ---- C17
 m("c17-ifftshift-revert", "C17", "holopy/core/process/fourier.py", "            shifted = np.fft.ifftshift(", "            shifted = np.fft.fftshift(")
-m("c17-zero-not-reinserted", "C17", "holopy/propagation/convolution_propagation.py", "        res = xr.concat([data, res], dim='z')", "        res = res")
+m("c17-zero-not-reinserted", "C17", "holopy/propagation/convolution_propagation.py", "        res = xr.concat([data] * n_zero + [res], dim='z')", "        res = xr.concat([data] + [res], dim='z')")
 m("c17-gradient-sign", "C17", "holopy/propagation/convolution_propagation.py", "        g -= np.exp(-1j * 2 * np.pi * (d + gradient_filter) / med_wavelen * np.sqrt(root))", "        g += np.exp(-1j * 2 * np.pi * (d + gradient_filter) / med_wavelen * np.sqrt(root))")
 # ---- C18
 m("c18-bg-order", "C18", "holopy/core/process/img_proc.py", "    holo = (raw - df) / zero_filter(bg - df)", "    holo = (raw - df) / zero_filter(bg) ")
 m("c18-crop-plus1", "C18 C07", "holopy/core/process/img_proc.py", "int(np.round(c+s/2))) for c, s", "int(np.round(c+s/2)) + 1) for c, s")
 m("c18-normalize-mean", "C18", "holopy/core/process/img_proc.py", "image * 1.0 / image.sum() * image.size)", "image * 1.0 / image.max())")
 # ---- C19
-m("c19-mod-removed", "C19", "holopy/core/math.py", "    theta = np.arctan2(np.sqrt(x**2 + y**2), z)\n    phi = np.arctan2(y, x) % (2*np.pi)", "    theta = np.arctan2(np.sqrt(x**2 + y**2), z)\n    phi = np.arctan2(y, x)")
+m("c19-mod-removed", "C19", "holopy/core/math.py", "    theta = np.arctan2(rho, z)\n    phi = np.arctan2(y, x) % (2*np.pi)", "    theta = np.arctan2(rho, z)\n    phi = np.arctan2(y, x)")
 m("c19-rotation-transposed", "C19 C05 C10", "holopy/core/math.py", "                     -ca*sb, sa*sb, cb]).reshape((3,3)) # row major", "                     -ca*sb, sa*sb, cb]).reshape((3,3)).T # row major")
 # ---- C20
 m("c20-inclusive", "C20", "holopy/scattering/scatterer/sphere.py", "(lambda points, ri=ri: (points**2).sum(-1) < ri**2)", "(lambda points, ri=ri: (points**2).sum(-1) <= ri**2)")
@@ -103,7 +103,7 @@ m("c04-auto-rule-squared", "C04 C09", "holopy/scattering/interface.py", "max_sep
 m("c07-seed-falsy", "C07", "holopy/core/metadata.py", "    if seed is not None:", "    if seed:")
 m("c16-pack-falsy", "C16", "holopy/core/io/io.py", "if val is not None:", "if val:")
 m("c18-zero-filter-isclose", "C18", "holopy/core/process/img_proc.py", "xr.where(image > 0, image, np.nan)", "xr.where(np.isclose(image, 0), np.nan, image)")
-m("c20-translated-falsy", "C20 C19", "holopy/scattering/scatterer/scatterer.py", "if coord2 is None and len(ensure_array(coord1) == 3):", "if not coord2 and len(ensure_array(coord1) == 3):")
+m("c20-translated-falsy", "C20 C19", "holopy/scattering/scatterer/scatterer.py", "if coord2 is None and len(ensure_array(coord1)) == 3:", "if not coord2 and len(ensure_array(coord1)) == 3:")
 m("c06-nested-components-dropped", "C06", "holopy/scattering/scatterer/composite.py", "components += s.get_component_list()", "components = s.get_component_list()")
 m("c03-asym-over-cext", "C03", "holopy/scattering/theory/mie.py", "asym = 4. * np.pi / (medium_wavevec**2 * cscat)", "asym = 4. * np.pi / (medium_wavevec**2 * cext)")
 
